@@ -1,5 +1,6 @@
 //! mvh — conformance harness binding the TLA+ specification in /verif/spec to cf/miden-vm.
 mod air;
+mod asmhist;
 mod codec;
 mod exec;
 mod hints;
@@ -25,6 +26,8 @@ fn main() {
         "codec-corpus" => codec::corpus(a(2)),
         "hints" => hints::run_hints(a(2), a(3)),
         "determinism" => trace::determinism(a(2), a(3)),
+        "asm-history" => asmhist::asm_history(a(2), a(3)),
+        "asm-rejects" => asmhist::asm_rejects(a(2), a(3)),
         "iter-walk" => trace::iter_walk(a(2), a(3)),
         other => {
             eprintln!("unknown sub-command {other}");
